@@ -42,7 +42,7 @@ def run_replay(prop, hints, out_path, unit=None):
     fam = P.PROPS[prop].get("replay")
     if fam is None:
         return None
-    script = "bindfam.py" if fam == "bind" else ("invfam.py" if (unit in P.INV_UNITS or fam == "inv") else "callfam.py")
+    script = "ctxfam.py" if fam == "ctx" else "bindfam.py" if fam == "bind" else ("invfam.py" if (unit in P.INV_UNITS or fam == "inv") else "callfam.py")
     env = dict(os.environ, PYTHONPATH=REPO)
     cmd = ["/venv/bin/python", os.path.join(HERE, "replay", script), "--search", "--hints", ",".join(hints), "--out", out_path]
     try:
@@ -144,7 +144,7 @@ def main(argv):
         doc = {"property": prop, "failed_obligation": o.name, "obligation_class": gname, "instances": len(items),
                "unit": rep.unit.describe(), "path": o.meta.get("path"), "solver": {k2: v for k2, v in r.items() if k2 != "model"},
                "goal": str(o.goal)[:3000], "replay": rres if rres is not None else {"found": False, "reason": "no replay family for this property"},
-               "how_to_replay": "PYTHONPATH=%s /venv/bin/python %s/replay/%s --scenario <this file>" % (REPO, HERE, "bindfam.py" if cfg.get("replay") == "bind" else ("invfam.py" if uname in P.INV_UNITS else "callfam.py"))}
+               "how_to_replay": "PYTHONPATH=%s /venv/bin/python %s/replay/%s --scenario <this file>" % (REPO, HERE, "ctxfam.py" if cfg.get("replay") == "ctx" else "bindfam.py" if cfg.get("replay") == "bind" else ("invfam.py" if uname in P.INV_UNITS else "callfam.py"))}
         if reproduced:
             doc["program"] = rres.get("program")
         h = hashlib.sha256((prop + gname).encode()).hexdigest()[:10]
@@ -166,7 +166,7 @@ def main(argv):
     for _, _, r in all_obls:
         backends[r.get("backend") or "none"] = backends.get(r.get("backend") or "none", 0) + 1
     ev = {
-        "property_id": prop, "tier": tier, "seed": seed, "level": "proof",
+        "property_id": prop, "tier": tier, "seed": seed, "level": cfg.get("level", "proof"),
         "coverage": {
             "obligations": n_obl, "discharged": n_ok,
             "checker_cmd": "python3-vt /verif/checker.py %s --tier %s  (VC generation by pyvc from %s/icontract/*.py; z3 %s)" % (prop, tier, REPO, z3.get_version_string()),
@@ -180,6 +180,8 @@ def main(argv):
             "guards": guard_report,
             "failed_obligation_classes": sorted(groups),
             "known_findings_matched": [g for _, g in known_hits],
+            "explanation": cfg.get("explanation", "every obligation listed is a verification condition generated from the current source "
+                                   "of the named units against their sidecar contracts and discharged by the SMT solver"),
             "machine_arithmetic": "Python ints are mathematical integers in the encoding (they only index and count)",
         },
         "assumptions": sorted(REG.assumptions) + ["Python semantics of the executed subset as encoded by pyvc", "trusted externals listed under coverage.trusted_base"],
